@@ -26,7 +26,7 @@ CELLS = {
     'fees_base': (('tag',), 'opt:bv128'), 'fees_mult': (('tag',), 'bv128'),
     'validator_power': (('addr',), 'opt:bv64'), 'validator_key': (('addr',), 'bv256'), 'validator_count': ((), 'bv64'),
     'block_height': ((), 'bv64'), 'revision_number': ((), 'bv64'), 'block_timestamp': ((), 'bv128'),
-    'upgrade_change': (('ident', 'ident'), 'opt:bv64'), 'allowed_fee_asset_count': ((), 'bv64'),
+    'upgrade_change': (('ident', 'ident'), 'opt:bv64'), 'allowed_fee_asset_count': ((), 'bv64'), 'price_feed': ((), 'bv64'),
 }
 KEY_BITS = {'addr': 160, 'asset': 256, 'ident': 256, 'tag': 8}
 
@@ -243,10 +243,62 @@ class World:
         m = re.match(r'^<.+ as ([\w:]+::)?State(Read|Write)Ext>::(\w+)', ctx.callee)
         comp, rw, meth = (m.group(1) or ''), m.group(2), m.group(3)
         h = getattr(self, 'm_' + meth, None)
+        if h is None and ('price_feed' in comp or 'oracles' in comp or 'market_map' in comp):
+            return self.opaque_family(ctx, 'price_feed', rw, meth)
         if h is None:
             return None          # executed from its MIR (L1)
         is_async = 'Future' in ctx.ret_ty or 'Pin<Box' in ctx.ret_ty
         return h(ctx, is_async, comp)
+
+    def m_get_market_map(self, ctx, a, comp):
+        """the stored market map: absent, or a map of 0..1 markets keyed by an arbitrary ticker string (shape chosen by fresh Bools)"""
+        st = ctx.st
+        st.log.append(('read', 'price_feed', 'get_market_map'))
+        pres, one = z3.Bool('market_map_present'), z3.Bool('market_map_has_one_market')
+
+        def mk(n):
+            def f(s3):
+                entries = []
+                for j in range(n):
+                    k = Obj('std::string::String', kind='opaque'); k.attrs['ident'] = z3.BitVec(f'stored_ticker{j}', 256)
+                    entries.append((k, Obj('astria_core::oracles::price_feed::market_map::v2::Market')))
+                mm = Obj('astria_core::oracles::price_feed::market_map::v2::MarketMap')
+                a_ = self.ex.adts.lookup(mm.ty)
+                mm.fields[(None, a_['fields'].index('markets'))] = M.new_map('IndexMap<String, Market>', entries)
+                return ok(some(mm))
+            return f
+        return self.fut(ctx, a, lambda ex, s2, fut: [(z3.And(pres, z3.Not(one)), mk(0)), (z3.And(pres, one), mk(1)), (z3.Not(pres), (lambda s3: ok(none())))])
+
+    def opaque_family(self, ctx, fam, rw, meth):
+        """a state_ext module that is not modelled cell by cell: reads return an arbitrary well-typed value (or fail), writes bump the family's version"""
+        st = ctx.st
+        is_async = 'Future' in ctx.ret_ty or 'Pin<Box' in ctx.ret_ty
+        m = re.search(r'Result<(.*), (?:astria_eyre::eyre::Report|ErrReport|eyre::Report|Report)>', ctx.ret_ty)
+        inner = m.group(1).strip() if m else None
+        n = sum(1 for e in st.log if e[0] in ('read', 'write') and e[1] == fam)
+        if rw == 'Read' or meth.startswith('get_'):
+            st.log.append(('read', fam, meth))
+            okv = z3.Bool(f'{fam}_{meth}_ok_{n}')
+
+            def alts(ex, s2, fut):
+                if inner is None:
+                    return [(None, ex.fresh(s2, ctx.ret_ty, f'{fam}_{meth}'))]
+                om = re.match(r'^(?:std::option::|core::option::)?Option<(.*)>$', inner)
+                if om:
+                    pres = z3.Bool(f'{fam}_{meth}_present_{n}')
+                    return [(z3.And(okv, pres), (lambda s3: ok(some(ex.fresh(s3, om.group(1), f'{fam}_{meth}'))))), (z3.And(okv, z3.Not(pres)), (lambda s3: ok(none()))), (z3.Not(okv), (lambda s3: err()))]
+                return [(okv, (lambda s3: ok(ex.fresh(s3, inner, f'{fam}_{meth}')))), (z3.Not(okv), (lambda s3: err()))]
+            return self.fut(ctx, is_async, alts)
+        ver = z3.BitVec(f'{fam}_version_{n}', 64)
+        st.world[fam] = ver
+        st.log.append(('write', fam, meth, None, False, self.state_token(st, ctx.args[0])))
+        okv = z3.Bool(f'{fam}_{meth}_ok_{n}')
+
+        def walts(ex, s2, fut):
+            if inner is None:
+                return [(None, ())]
+            return [(okv, (lambda s3: ok(()))), (z3.Not(okv), (lambda s3: err()))]
+        return self.fut(ctx, is_async, walts)
 
     # generic helpers -------------------------------------------------------------------------------------------------
     def getter(self, ctx, is_async, fam, keyargs, wrap):
